@@ -359,15 +359,15 @@ AddedLogsNoDup     == [][ReorgCall => Added \subseteq LogSet(CanonBlocks' \ Cano
 EventsDescribeSwitch == RemovedLogsExact /\ AddedLogsComplete /\ AddedLogsNoDup
 RemovedWereCanonical == [][ReorgCall => Removed \subseteq LogSet(CanonBlocks)]_vars
 
-(* TODO-KNOWN-FINDING (C38-F2, see NOTES.md): the strict claim fails on the model exactly as it *)
+(* KNOWN-FINDING (C38-F2, see NOTES.md): the strict claim fails on the model exactly as it *)
 (* fails on core.BlockChain for calls that                                                    *)
 (*   kb : make a stored block with state the head through writeKnownBlock (no ChainEvent and  *)
 (*        no logs are sent for it),                                                            *)
 (*   rx : re-execute a block that is already canonical because its state was pruned (its logs *)
 (*        are sent again, the blocks above it are announced as removed),                       *)
 (*   or move a block whose receipts were never stored (left behind by a kb call) into or out  *)
-(*   of the canonical chain.  Until the coordinator decides, the claim is checked for all     *)
-(*   other calls.                                                                              *)
+(*   of the canonical chain.  Listed as open in known_findings.json; the claim is checked for all other   *)
+(*   calls.                                                                                    *)
 CleanCall == /\ gh'.kb = {} /\ gh'.rx = {}
              /\ (CanonBlocks \ CanonBlocks') \subseteq rcpt
              /\ (CanonBlocks' \ CanonBlocks) \subseteq rcpt'
@@ -375,7 +375,7 @@ EventsDescribeSwitchPending ==
   [][ReorgCall /\ CleanCall => /\ Removed = LogSet(CanonBlocks \ CanonBlocks')
                                /\ Added = LogSet(CanonBlocks' \ CanonBlocks)]_vars
 
-(* TODO-KNOWN-FINDING (C38-F1, see NOTES.md): writeHeadBlock moves the head header to the new  *)
+(* KNOWN-FINDING (C38-F1, see NOTES.md): writeHeadBlock moves the head header to the new  *)
 (* head block unconditionally; when the head header was above the head block (after a SetHead *)
 (* onto a block without state, or after crash repair) the number index keeps entries above    *)
 (* the new head.  stale = numbers above the head header that still carry an entry.            *)
